@@ -121,7 +121,12 @@ def gen_history(rng, length):
             hist.append(dict(base, seq=base['seq'] + 7, bad_crc=[rng.choice([0, 1])], crc=2))
         elif roll < 0.71:
             hist.append(dict(base, seq=base['seq'] + 8, blocks=[B.unknown_bib()], sec=13))
-        elif roll < 0.90:
+        elif roll < 0.78:
+            # accepted for delivery by the routing step, then refused by the application it is delivered to
+            hist.append(B.refused_acme_spec(rng.choice(['response', 'request', 'no-alg']), NODE, src=base['src'], report_to=base['report_to'],
+                                            flags=rng.choice([0, B.FLAG_REQ_DELETION, B.FLAG_REQ_DELIVERY, B.FLAG_REQ_DELETION | B.FLAG_REQ_DELIVERY, ALL_REQ]),
+                                            time=base['time'], seq=base['seq'] + 10, crc=base.get('crc', 2) or 2))
+        elif roll < 0.92:
             # a CRC-damaged copy (still decodable) arrives before the first intact copy of the same identity
             intact = dict(base, seq=base['seq'] + 9, crc=rng.choice([1, 2]))
             hist.append(dict(intact, bad_crc=[rng.choice([0, 1])]))
@@ -139,7 +144,8 @@ def gen_history(rng, length):
 def gen_case(rng, length):
     for _ in range(50):
         (rx, tx) = gen_routes(rng)
-        case = dict(node_id=NODE, rx_routes=rx, tx_routes=tx, hist=gen_history(rng, length), now_ms=800000000000)
+        case = dict(node_id=NODE, rx_routes=rx, tx_routes=tx, hist=gen_history(rng, length), now_ms=800000000000,
+                    acme_expect=['idchal-registered'])
         try:
             B.coq_case(case)
         except B.AmbiguousCase:
@@ -197,6 +203,22 @@ def oracle_c10(case, raw):
                 bad.append(('C10/delivery-of-unrelated-identity', where + ' delivered %r' % (got,)))
         if len(delivers) > 1:
             bad.append(('C10/delivered-more-than-once', where))
+        # one received bundle, one action: at most one status report, one forwarding; a deleted bundle is not
+        # forwarded, and only an application that refuses what was delivered to it makes "delivered" and
+        # "deleted" meet
+        own_reports = [ent for ent in reports if (ent['bundle'].get('admin') or {}).get('subj_src') == spec.get('src')]
+        if len(own_reports) > 1:
+            bad.append(('C10/more-than-one-status-report-for-one-received-bundle',
+                        where + ': %d reports %r' % (len(own_reports), [sorted(name for (name, item) in (ent['bundle']['admin'].get('status') or {}).items()
+                                                                             if item['asserted']) for ent in own_reports])))
+        whole = [ent for ent in fwds if (ent['bundle'].get('primary') or {}).get('frag') is None]
+        if len(whole) > 1:
+            bad.append(('C10/forwarded-more-than-once', where))
+        told_deleted = any(((ent['bundle'].get('admin') or {}).get('status') or {}).get('deleted', {}).get('asserted') for ent in own_reports)
+        if told_deleted and fwds:
+            bad.append(('C10/deleted-bundle-also-forwarded', where))
+        if told_deleted and delivers and not spec.get('refuse'):
+            bad.append(('C10/deleted-bundle-also-delivered', where))
         if effects:
             acted[ident] = idx
         # routing: first matching receive route, administrative endpoint always delivered
@@ -325,6 +347,19 @@ def directed_cases():
         intact = bd(dest=dst, seq=20 + k, time=6000)
         dmg += [dict(intact, bad_crc=[0]), dict(intact, bad_crc=[1]), intact, dict(intact)]
     cases.append(dict(node_id=NODE, rx_routes=rx, tx_routes=tx, now_ms=800000000000, hist=dmg))
+    # accepted for delivery (administrative endpoint), then refused by the admin element: ACME records it rejects,
+    # every subset of the deletion / delivery / reception report requests, with and without status time
+    ref = []
+    seqno = 0
+    for kind in ('response', 'request', 'no-alg'):
+        for bits in range(16):
+            flags = ((B.FLAG_REQ_DELETION if bits & 1 else 0) | (B.FLAG_REQ_DELIVERY if bits & 2 else 0)
+                     | (B.FLAG_REQ_RECEPTION if bits & 4 else 0) | (B.FLAG_REQ_STATUS_TIME if bits & 8 else 0))
+            seqno += 1
+            ref.append(B.refused_acme_spec(kind, NODE, src='dtn://n1/', report_to='dtn://n2/', flags=flags, time=7000, seq=seqno))
+    ref.append(dict(ref[5]))                                                          # a repeat of a refused bundle
+    ref.append(B.refused_acme_spec('response', NODE, src='dtn://n1/', report_to='dtn:none', flags=ALL_REQ, time=7001, seq=1))
+    cases.append(dict(node_id=NODE, rx_routes=rx, tx_routes=tx, now_ms=800000000000, hist=ref, acme_expect=['idchal-registered']))
     # regression (fixed in /repo): block numbers handed out by _do_fwd used to stick to the scapy class-level
     # overloaded_fields dict, so a later bundle carrying such a number could not be forwarded
     import cbor2
@@ -439,6 +474,8 @@ def main():
             if [(float(order), name) for (order, name) in read] != [(float(order), name) for (order, name) in live[which]]:
                 (ch_ok, ch_err) = (False, '%s chain read from the source %r differs from the live agent %r' % (which, read, live[which]))
     chk.obligation('translator:chain', ch_ok, ch_err)
+    (rt_ok, rt_err) = chk.translate_ok('recvtail')
+    chk.obligation('translator:recvtail', rt_ok, rt_err)
 
     count = 240 if chk.quick() else 30000
     length = 8
@@ -497,6 +534,8 @@ def main():
                 chk.count('input_kind', 'admin-endpoint')
             if spec.get('bad_crc'):
                 chk.count('input_kind', 'bad-crc')
+            if spec.get('refuse'):
+                chk.count('input_kind', 'refused-by-application-after-deliver')
         chk.count('repeated_identities', min(repeats, 5))
         for kind in sorted(kinds):
             chk.count('event_kind', {0: 'deliver', 1: 'tx', 2: 'tx-fragments', 3: 'report', 4: 'send-fail'}.get(kind, kind))
